@@ -695,6 +695,8 @@ def digest(ac):
 
 
 def run(ctx, res):
+    from . import genarith
+    genarith.regenerate(ctx.pid, "audit", res)   # regenerated tie: overstatement assorter, u bound, tally margins (DESIGN 2.1)
     rng = ctx.rng
     stats_novalid[0] = 0
     n_worlds = ctx.n(260, 4000)
